@@ -1,5 +1,6 @@
 import PdeVerif.Model.Cache
 import PdeVerif.Lemmas.Basic
+import PdeVerif.Lemmas.FracText
 import Mathlib.Data.List.Sort
 import Mathlib.Data.String.Basic
 import Mathlib.Data.List.Nodup
@@ -22,10 +23,22 @@ Theorems about `PdeVerif.Cache` (Model/Cache.lean):
 * witnesses that each repaired derivation was NOT faithful: `bc_key_collision_dirichlet_neumann_old`
   (F1), `num_key_collision_old` (A), `array_key_collision_old` (B), `grid_key_collision_old` (D),
   `f1_regression_observable`.
-* `interpolator_reads_current_buffer`: for every history of {write, relink by a collection,
-  assign `_data_full`, interpolate, rate of a PDE with the field as constant} the value read is
-  the field's current buffer; `interpolator_stale_after_relink_old` (F2) and
-  `pde_rate_stale_after_relink_old` (C): witnesses without the respective repair.
+* `helpers_read_current_content`: for every history of {write, relink by a collection, assign
+  `_data_full`, interpolate, interpreted rate, numba-compiled rate of a PDE with the field as constant}
+  that is `Covered` (no compiled rate, or the proposed fix E present) the value read is the content of
+  the field's current buffer; `interpolator_reads_current_buffer` = the instance for the code as it
+  is (histories without the compiled rate); `pde_rate_jit_stale_after_write` (finding E: the compiled
+  rate of the code as it is returns the copy numba froze), `helpers_read_current_content_fixE`;
+  `interpolator_stale_after_relink_old` (F2) and `pde_rate_stale_after_relink_old` (C): witnesses
+  without the respective repair.
+* observable projections `gridObs`, `bcObs`, `bcsObs`, `ArgObs`/`argObs`, `kwObs`, `opObs` and what a
+  key determines: `grid_obs_of_key_eq` (exact values of the bounds, by `fracText_inj` from
+  Lemmas/FracText.lean), `arg_obs_of_key_eq`, `kwargs_obs_of_key_eq`, `opreq_obs_of_key_eq`.
+* composition: `cache_sound_of_faithful_on`, `events_sound_of_faithful_on` (machine theorems relative
+  to a set of admissible requests), `make_operator_cache_sound`, `make_operator_events_sound`,
+  `kwargs_method_cache_sound`: every history of modelled requests on the cache keyed by the CURRENT
+  derivation returns what a fresh construction returns, for every `build` that is a function of the
+  observables; `make_operator_cache_unsound_old`.
 -/
 set_option linter.unusedSimpArgs false
 set_option linter.unusedSectionVars false
@@ -190,7 +203,7 @@ end Machine
 /-! ## (v) helpers that captured a buffer identity -/
 
 section Heap
-variable {κ V : Type} [DecidableEq κ]
+variable {κ V : Type} [DecidableEq κ] [DecidableEq V]
 
 /-- every cached interpolator captured the buffer the field currently uses -/
 def HInv (s : FieldSt κ V) : Prop := ∀ k b, s.helpers.lookup k = some b → b = s.cur
@@ -198,15 +211,24 @@ def HInv (s : FieldSt κ V) : Prop := ∀ k b, s.helpers.lookup k = some b → b
 theorem HInv_newField (v : V) : HInv (newField (κ := κ) v) := by
   intro k b h; simp [newField] at h
 
-theorem hstep_spec (s : FieldSt κ V) (e : HEv κ V) (h : HInv s) :
-    HInv (hstep HeapFix.cur s e).1 ∧
+/-- the event is not an evaluation of the numba-compiled rate -/
+def HEv.notJit : HEv κ V → Bool
+  | .rateJit => false
+  | _ => true
+
+/-- what one event returns and leaves behind, for every combination of repairs that contains F2 and
+C; the compiled rate (`rateJit`) is covered only together with fix E (`content`) -/
+theorem hstep_spec (fx : HeapFix) (hi : fx.inval = true) (hc : fx.check = true)
+    (s : FieldSt κ V) (e : HEv κ V) (he : fx.content = true ∨ e.notJit = true) (h : HInv s) :
+    HInv (hstep fx s e).1 ∧
     (match e with
-     | .write v => (hstep HeapFix.cur s e).2 = none ∧ (hstep HeapFix.cur s e).1.bufs (hstep HeapFix.cur s e).1.cur = v
-     | .relink => (hstep HeapFix.cur s e).2 = none ∧ (hstep HeapFix.cur s e).1.bufs (hstep HeapFix.cur s e).1.cur = s.bufs s.cur
-     | .assignNew v => (hstep HeapFix.cur s e).2 = none ∧ (hstep HeapFix.cur s e).1.bufs (hstep HeapFix.cur s e).1.cur = v
-     | .assignSame => (hstep HeapFix.cur s e).2 = none ∧ (hstep HeapFix.cur s e).1.bufs (hstep HeapFix.cur s e).1.cur = s.bufs s.cur
-     | .interp _ => (hstep HeapFix.cur s e).2 = some (s.bufs s.cur) ∧ (hstep HeapFix.cur s e).1.bufs (hstep HeapFix.cur s e).1.cur = s.bufs s.cur
-     | .rate => (hstep HeapFix.cur s e).2 = some (s.bufs s.cur) ∧ (hstep HeapFix.cur s e).1.bufs (hstep HeapFix.cur s e).1.cur = s.bufs s.cur) := by
+     | .write v => (hstep fx s e).2 = none ∧ (hstep fx s e).1.bufs (hstep fx s e).1.cur = v
+     | .relink => (hstep fx s e).2 = none ∧ (hstep fx s e).1.bufs (hstep fx s e).1.cur = s.bufs s.cur
+     | .assignNew v => (hstep fx s e).2 = none ∧ (hstep fx s e).1.bufs (hstep fx s e).1.cur = v
+     | .assignSame => (hstep fx s e).2 = none ∧ (hstep fx s e).1.bufs (hstep fx s e).1.cur = s.bufs s.cur
+     | .interp _ => (hstep fx s e).2 = some (s.bufs s.cur) ∧ (hstep fx s e).1.bufs (hstep fx s e).1.cur = s.bufs s.cur
+     | .rate => (hstep fx s e).2 = some (s.bufs s.cur) ∧ (hstep fx s e).1.bufs (hstep fx s e).1.cur = s.bufs s.cur
+     | .rateJit => (hstep fx s e).2 = some (s.bufs s.cur) ∧ (hstep fx s e).1.bufs (hstep fx s e).1.cur = s.bufs s.cur) := by
   cases e with
   | write v =>
     refine ⟨?_, rfl, ?_⟩
@@ -214,11 +236,11 @@ theorem hstep_spec (s : FieldSt κ V) (e : HEv κ V) (h : HInv s) :
     · simp [hstep]
   | relink =>
     refine ⟨?_, rfl, ?_⟩
-    · intro k b hk; simp [hstep, rebind, HeapFix.cur] at hk
+    · intro k b hk; simp [hstep, rebind, hi] at hk
     · simp [hstep, rebind]
   | assignNew v =>
     refine ⟨?_, rfl, ?_⟩
-    · intro k b hk; simp [hstep, rebind, HeapFix.cur] at hk
+    · intro k b hk; simp [hstep, rebind, hi] at hk
     · simp [hstep, rebind]
   | assignSame => exact ⟨h, rfl, rfl⟩
   | interp k =>
@@ -241,54 +263,118 @@ theorem hstep_spec (s : FieldSt κ V) (e : HEv κ V) (h : HInv s) :
     · next b hb =>
       by_cases hbc : b = s.cur
       · subst hbc
-        simp [HeapFix.cur]
+        simp [hc]
         exact h
       · have : (b != s.cur) = true := by simpa using hbc
-        simp [HeapFix.cur, this]
+        simp [hc, this]
+        exact h
+    · exact ⟨h, rfl, rfl⟩
+  | rateJit =>
+    have hcont : fx.content = true := by
+      rcases he with he | he
+      · exact he
+      · simp [HEv.notJit] at he
+    simp only [hstep]
+    split
+    · next b c hb =>
+      by_cases hbc : b = s.cur
+      · by_cases hcc : c = s.bufs s.cur
+        · subst hbc; subst hcc
+          simp [hc, hcont]
+          exact h
+        · subst hbc
+          simp [hc, hcont, hcc]
+          exact h
+      · have : (b != s.cur) = true := by simpa using hbc
+        simp [hc, this]
         exact h
     · exact ⟨h, rfl, rfl⟩
 
-/-- **No stale helper.**  For every history of {write, relink by a collection, assignment of
-`_data_full` (new or same array), interpolate with any kwargs, rate of a PDE that uses the field
-as a constant}, every value read is the content of the field's *current* buffer. -/
-theorem interpolator_reads_current_buffer :
-    ∀ (es : List (HEv κ V)) (s : FieldSt κ V), HInv s →
-      hrun HeapFix.cur s es = href (s.bufs s.cur) es := by
+/-- all events of the history are covered: either fix E is present or no event evaluates the
+compiled rate -/
+def Covered (fx : HeapFix) (es : List (HEv κ V)) : Prop :=
+  fx.content = true ∨ ∀ e ∈ es, e.notJit = true
+
+/-- **No stale helper (general form).**  With the repairs F2 and C, for every history of {write,
+relink by a collection, assignment of `_data_full` (new or same array), interpolate with any
+kwargs, interpreted rate, compiled rate} that is `Covered`, every value read is the content of
+the field's *current* buffer. -/
+theorem helpers_read_current_content (fx : HeapFix) (hi : fx.inval = true) (hc : fx.check = true) :
+    ∀ (es : List (HEv κ V)) (s : FieldSt κ V), Covered fx es → HInv s →
+      hrun fx s es = href (s.bufs s.cur) es := by
   intro es
   induction es with
-  | nil => intro s _; rfl
+  | nil => intro s _ _; rfl
   | cons e es ih =>
-    intro s h
-    obtain ⟨hinv, hspec⟩ := hstep_spec s e h
+    intro s hcov h
+    have he : fx.content = true ∨ e.notJit = true := by
+      rcases hcov with hcov | hcov
+      · exact Or.inl hcov
+      · exact Or.inr (hcov e (by simp))
+    have hcov' : Covered fx es := by
+      rcases hcov with hcov | hcov
+      · exact Or.inl hcov
+      · exact Or.inr (fun e' he' => hcov e' (by simp [he']))
+    obtain ⟨hinv, hspec⟩ := hstep_spec fx hi hc s e he h
     cases e with
-    | write v => simp only [hrun, href, hspec.1]; rw [ih _ hinv, hspec.2]
-    | relink => simp only [hrun, href, hspec.1]; rw [ih _ hinv, hspec.2]
-    | assignNew v => simp only [hrun, href, hspec.1]; rw [ih _ hinv, hspec.2]
-    | assignSame => simp only [hrun, href, hspec.1]; rw [ih _ hinv, hspec.2]
-    | interp k => simp only [hrun, href, hspec.1]; rw [ih _ hinv, hspec.2]
-    | rate => simp only [hrun, href, hspec.1]; rw [ih _ hinv, hspec.2]
+    | write v => simp only [hrun, href, hspec.1]; rw [ih _ hcov' hinv, hspec.2]
+    | relink => simp only [hrun, href, hspec.1]; rw [ih _ hcov' hinv, hspec.2]
+    | assignNew v => simp only [hrun, href, hspec.1]; rw [ih _ hcov' hinv, hspec.2]
+    | assignSame => simp only [hrun, href, hspec.1]; rw [ih _ hcov' hinv, hspec.2]
+    | interp k => simp only [hrun, href, hspec.1]; rw [ih _ hcov' hinv, hspec.2]
+    | rate => simp only [hrun, href, hspec.1]; rw [ih _ hcov' hinv, hspec.2]
+    | rateJit => simp only [hrun, href, hspec.1]; rw [ih _ hcov' hinv, hspec.2]
+
+/-- **No stale helper, the code as it is** (`HeapFix.cur`: F2 and C, not E): for every history
+WITHOUT evaluations of the numba-compiled rate, every interpolation and every interpreted rate
+reads the content of the field's current buffer.  (The compiled rate is NOT covered: see
+`pde_rate_jit_stale_after_write`.) -/
+theorem interpolator_reads_current_buffer :
+    ∀ (es : List (HEv κ V)) (s : FieldSt κ V), (∀ e ∈ es, e.notJit = true) → HInv s →
+      hrun HeapFix.cur s es = href (s.bufs s.cur) es :=
+  fun es s hnj h => helpers_read_current_content HeapFix.cur rfl rfl es s (Or.inr hnj) h
 
 /-- in particular from a freshly created field -/
-theorem interpolator_reads_current_buffer_new (v : V) (es : List (HEv κ V)) :
+theorem interpolator_reads_current_buffer_new (v : V) (es : List (HEv κ V))
+    (hnj : ∀ e ∈ es, e.notJit = true) :
     hrun HeapFix.cur (newField v) es = href v es :=
-  interpolator_reads_current_buffer es _ (HInv_newField v)
+  interpolator_reads_current_buffer es _ hnj (HInv_newField v)
+
+/-- **With the proposed fix E every history is covered**, including the compiled rate. -/
+theorem helpers_read_current_content_fixE (es : List (HEv κ V)) (s : FieldSt κ V) (h : HInv s) :
+    hrun HeapFix.fixE s es = href (s.bufs s.cur) es :=
+  helpers_read_current_content HeapFix.fixE rfl rfl es s (Or.inl rfl) h
+
+/-- **Finding E (the code as it is): the numba-compiled rate ignores an in-place write to a
+field-valued constant.**  `[compiled rate, write c1, compiled rate]` returns the old content twice. -/
+theorem pde_rate_jit_stale_after_write (c0 c1 : V) (h : c0 ≠ c1) :
+    hrun (κ := κ) HeapFix.cur (newField c0) [.rateJit, .write c1, .rateJit] = [c0, c0] ∧
+    href (κ := κ) c0 [HEv.rateJit, .write c1, .rateJit] = [c0, c1] ∧
+    hrun (κ := κ) HeapFix.cur (newField c0) [.rateJit, .write c1, .rateJit]
+      ≠ href (κ := κ) c0 [HEv.rateJit, .write c1, .rateJit] ∧
+    hrun (κ := κ) HeapFix.fixE (newField c0) [.rateJit, .write c1, .rateJit] = [c0, c1] := by
+  have h1 : hrun (κ := κ) HeapFix.cur (newField c0) [.rateJit, .write c1, .rateJit] = [c0, c0] := by
+    simp [hrun, hstep, newField, HeapFix.cur]
+  refine ⟨h1, rfl, ?_, ?_⟩
+  · rw [h1]; simp [href]; exact h
+  · simp [hrun, hstep, newField, HeapFix.fixE, h]
 
 /-- witness without the invalidation of fix F2 -/
 theorem interpolator_stale_after_relink_old (k : κ) (c0 c1 : V) (h : c0 ≠ c1) :
-    hrun ⟨false, true⟩ (newField c0) [.interp k, .relink, .write c1, .interp k] = [c0, c0] ∧
+    hrun ⟨false, true, false⟩ (newField c0) [.interp k, .relink, .write c1, .interp k] = [c0, c0] ∧
     href c0 [HEv.interp k, .relink, .write c1, .interp k] = [c0, c1] ∧
-    hrun ⟨false, true⟩ (newField c0) [.interp k, .relink, .write c1, .interp k]
+    hrun ⟨false, true, false⟩ (newField c0) [.interp k, .relink, .write c1, .interp k]
       ≠ href c0 [HEv.interp k, .relink, .write c1, .interp k] := by
-  have h1 : hrun ⟨false, true⟩ (newField c0) [.interp k, .relink, .write c1, .interp k] = [c0, c0] := by
+  have h1 : hrun ⟨false, true, false⟩ (newField c0) [.interp k, .relink, .write c1, .interp k] = [c0, c0] := by
     simp [hrun, hstep, newField, rebind]
   refine ⟨h1, rfl, ?_⟩
   rw [h1]; simp [href]; exact h
 
 theorem pde_rate_stale_after_relink_old (c0 c1 : V) (h : c0 ≠ c1) :
-    hrun (κ := κ) ⟨true, false⟩ (newField c0) [.rate, .relink, .write c1, .rate] = [c0, c0] ∧
-    hrun (κ := κ) ⟨true, false⟩ (newField c0) [.rate, .relink, .write c1, .rate]
+    hrun (κ := κ) ⟨true, false, false⟩ (newField c0) [.rate, .relink, .write c1, .rate] = [c0, c0] ∧
+    hrun (κ := κ) ⟨true, false, false⟩ (newField c0) [.rate, .relink, .write c1, .rate]
       ≠ href (κ := κ) c0 [HEv.rate, .relink, .write c1, .rate] := by
-  have h1 : hrun (κ := κ) ⟨true, false⟩ (newField c0) [.rate, .relink, .write c1, .rate] = [c0, c0] := by
+  have h1 : hrun (κ := κ) ⟨true, false, false⟩ (newField c0) [.rate, .relink, .write c1, .rate] = [c0, c0] := by
     simp [hrun, hstep, newField, rebind]
   refine ⟨h1, ?_⟩
   rw [h1]; simp [href]; exact h
@@ -1036,6 +1122,548 @@ example : (call (κ := Nat) (V := Nat) (some 1) id id [(5, 5)] 6).1 = [(6, 6)] :
 
 example : hrun (κ := Nat) HeapFix.cur (newField 1) [.interp 0, .relink, .write 10, .interp 0, .rate, .assignNew 3, .rate]
     = [1, 10, 10, 3] := by decide
+
+/-- the hypothesis of `interpolator_reads_current_buffer` holds for this history ... -/
+example : ∀ e ∈ ([.interp 0, .relink, .write 10, .interp 0, .rate, .assignNew 3, .rate] : List (HEv Nat Nat)), e.notJit = true := by
+  decide
+
+/-- ... and cannot be dropped: the compiled rate of the code as it is returns the frozen 1, with fix E the current 10 -/
+example : hrun (κ := Nat) HeapFix.cur (newField 1) [.rateJit, .write 10, .rateJit, .relink, .rateJit] = [1, 1, 10] ∧
+    hrun (κ := Nat) HeapFix.fixE (newField 1) [.rateJit, .write 10, .rateJit, .relink, .rateJit] = [1, 10, 10] := by decide
+
+
+/-! ## the cache machine on a set of admissible requests
+
+`cache_sound_of_faithful` asks for a key that is faithful on ALL requests.  The keys of py-pde
+are faithful on the requests whose arguments are of the modelled kinds (`OpReq.Modelled`,
+`KwModelled`); the machine theorems relative to such a set `P`: -/
+
+section MachineOn
+variable {Req κ V : Type} [DecidableEq κ]
+
+/-- every cached entry is the value of some admissible request with that key -/
+def CInvOn (P : Req → Prop) (key : Req → κ) (sem : Req → V) (c : List (κ × V)) : Prop :=
+  ∀ k v, c.lookup k = some v → ∃ a, P a ∧ key a = k ∧ v = sem a
+
+theorem CInvOn_nil (P : Req → Prop) (key : Req → κ) (sem : Req → V) : CInvOn P key sem [] := by
+  intro k v h; simp at h
+
+theorem call_inv_on (P : Req → Prop) (cap : Option Nat) (key : Req → κ) (sem : Req → V) (c) (r : Req)
+    (hr : P r) (h : CInvOn P key sem c) : CInvOn P key sem (call cap key sem c r).1 := by
+  unfold call
+  split
+  · exact h
+  · have hcons : CInvOn P key sem ((key r, sem r) :: c) := by
+      intro k v hk
+      simp only [List.lookup_cons] at hk
+      split at hk
+      · rename_i heq
+        have hkr : k = key r := by simpa using heq
+        simp at hk
+        exact ⟨r, hr, hkr.symm, hk.symm⟩
+      · exact h k v hk
+    cases cap with
+    | none => exact hcons
+    | some n =>
+      intro k v hk
+      exact hcons k v (lookup_take n _ k v hk)
+
+theorem call_sound_on (P : Req → Prop) (cap : Option Nat) (key : Req → κ) (sem : Req → V)
+    (faithful : ∀ a b, P a → P b → key a = key b → sem a = sem b)
+    (c) (r : Req) (hr : P r) (h : CInvOn P key sem c) : (call cap key sem c r).2 = sem r := by
+  unfold call
+  split
+  · rename_i v hv
+    obtain ⟨a, hPa, ha, rfl⟩ := h _ _ hv
+    exact faithful a r hPa hr ha
+  · rfl
+
+/-- **Cache soundness on admissible requests**: every history of admissible requests. -/
+theorem cache_sound_of_faithful_on (P : Req → Prop) (cap : Option Nat) (key : Req → κ) (sem : Req → V)
+    (faithful : ∀ a b, P a → P b → key a = key b → sem a = sem b) :
+    ∀ (rs : List Req) (c), CInvOn P key sem c → (∀ r ∈ rs, P r) → runAll cap key sem c rs = rs.map sem := by
+  intro rs
+  induction rs with
+  | nil => intro c _ _; rfl
+  | cons r rs ih =>
+    intro c h hP
+    have hr : P r := hP r (by simp)
+    simp only [runAll, List.map_cons]
+    rw [call_sound_on P cap key sem faithful c r hr h,
+      ih _ (call_inv_on P cap key sem c r hr h) (fun r' hr' => hP r' (by simp [hr']))]
+
+/-- every method cache of the instance satisfies the entry invariant -/
+def MInvOn (P : String → Req → Prop) (key : String → Req → κ) (sem : String → Req → V) (m : Methods κ V) : Prop :=
+  ∀ n, CInvOn (P n) (key n) (sem n) (methodCache m n)
+
+/-- all cached calls of the history are admissible -/
+def EvsOn (P : String → Req → Prop) : List (Ev Req) → Prop
+  | [] => True
+  | .call n r :: es => P n r ∧ EvsOn P es
+  | .drop :: es => EvsOn P es
+
+/-- **Soundness of the per-instance machine on admissible requests**: any interleaving of cached
+calls of any methods with invalidations. -/
+theorem events_sound_of_faithful_on (P : String → Req → Prop) (cap : Option Nat)
+    (key : String → Req → κ) (sem : String → Req → V)
+    (faithful : ∀ n a b, P n a → P n b → key n a = key n b → sem n a = sem n b) :
+    ∀ (es : List (Ev Req)) (m : Methods κ V), MInvOn P key sem m → EvsOn P es →
+      runEvents cap key sem m es = freshEvents sem es := by
+  intro es
+  induction es with
+  | nil => intro m _ _; rfl
+  | cons e es ih =>
+    intro m h hP
+    cases e with
+    | call n r =>
+      simp only [EvsOn] at hP
+      simp only [runEvents, freshEvents]
+      have hv : (callMethod cap key sem m n r).2 = sem n r := by
+        simp only [callMethod]
+        exact call_sound_on (P n) cap _ _ (faithful n) _ r hP.1 (h n)
+      have hinv : MInvOn P key sem (callMethod cap key sem m n r).1 := by
+        intro n'
+        simp only [callMethod, methodCache_set]
+        split
+        · next heq => subst heq; exact call_inv_on (P n') cap _ _ _ r hP.1 (h n')
+        · exact h n'
+      rw [hv, ih _ hinv hP.2]
+    | drop =>
+      simp only [EvsOn] at hP
+      simp only [runEvents, freshEvents]
+      exact ih none (fun n => CInvOn_nil _ _ _) hP
+
+end MachineOn
+
+/-! ## what a key determines: observable projections
+
+The observable attributes of the arguments - everything the implementation built for a request
+can depend on - and the proof that the key of the current derivation determines them. -/
+
+/-- class, shape, periodicity and the EXACT values of the bounds -/
+structure GridObs where
+  cls : String
+  shape : List Nat
+  periodic : List Bool
+  bounds : List (ℚ × ℚ)
+
+def boundsVal (p : FloatSpec × FloatSpec) : ℚ × ℚ := (dyadicVal p.1.m p.1.e, dyadicVal p.2.m p.2.e)
+
+def gridObs (g : GridSpec) : GridObs := ⟨g.cls, g.shape, g.periodic, g.bounds.map boundsVal⟩
+
+theorem map_eq_of_map_eq {α β γ : Type} {f : α → β} {g : α → γ} (hfg : ∀ x y, f x = f y → g x = g y) :
+    ∀ {l l' : List α}, l.map f = l'.map f → l.map g = l'.map g
+  | [], [], _ => rfl
+  | [], _ :: _, h => by simp at h
+  | _ :: _, [], h => by simp at h
+  | x :: l, y :: l', h => by
+    simp only [List.map_cons, List.cons.injEq] at h ⊢
+    exact ⟨hfg x y h.1, map_eq_of_map_eq hfg h.2⟩
+
+/-- **The grid key determines the grid**: class, shape, periodicity and the exact value of every
+bound (any finite floats, negative ones and fractions included: `fracText_inj`). -/
+theorem grid_obs_of_key_eq (d : Deriv) (hd : d.gridRepr = true) (h2 : d.numRepr = true) (a b : GridSpec)
+    (h : hashMutableG d (gridGraph a) = hashMutableG d (gridGraph b)) : gridObs a = gridObs b := by
+  obtain ⟨h1, h3, h4, h5⟩ := grid_key_faithful_mutable d hd h2 a b h
+  have h6 : a.bounds.map boundsVal = b.bounds.map boundsVal := by
+    refine map_eq_of_map_eq ?_ h5
+    intro x y hxy
+    simp only [boundsText, Prod.mk.injEq] at hxy
+    simp only [boundsVal, Prod.mk.injEq]
+    exact ⟨fracText_inj hxy.1, fracText_inj hxy.2⟩
+  simp [gridObs, h1, h3, h4, h6]
+
+/-- ... and conversely grids with the same observables have the same key (the key is a function
+of the observables: e.g. `UnitGrid` stores `np.float64` bounds, `CartesianGrid` Python floats) -/
+theorem grid_key_eq_of_obs (d : Deriv) (hd : d.gridRepr = true) (h2 : d.numRepr = true) (a b : GridSpec)
+    (h : gridObs a = gridObs b) : hashMutableG d (gridGraph a) = hashMutableG d (gridGraph b) := by
+  simp only [gridObs, GridObs.mk.injEq] at h
+  obtain ⟨h1, h3, h4, h5⟩ := h
+  have h6 : a.bounds.map boundsText = b.bounds.map boundsText := by
+    refine map_eq_of_map_eq ?_ h5
+    intro x y hxy
+    simp only [boundsVal, Prod.mk.injEq] at hxy
+    simp only [boundsText, Prod.mk.injEq]
+    exact ⟨fracText_eq_of_val hxy.1, fracText_eq_of_val hxy.2⟩
+  have hf : ∀ (s : List (FloatSpec × FloatSpec)),
+      s.map (hashMutableG d ∘ fun b => PyObj.tuple [floatObj b.1, floatObj b.2]) =
+      (s.map boundsText).map (fun p : String × String =>
+        Key.tup [Key.tup [strKey "number", strKey p.1], Key.tup [strKey "number", strKey p.2]]) := by
+    intro s
+    simp [List.map_map, Function.comp_def, floatObj, hashMutableG, hashListG, numKey, h2, boundsText, numText]
+  simp only [gridGraph, hashMutableG, hd, if_true, hashListG, hashListG_eq, List.map_map]
+  rw [hf, hf, h6, h1, h3, h4]
+
+/-- the observable attributes of a boundary condition -/
+structure BCObs where
+  cls : BCClass
+  grid : GridObs
+  axis : Nat
+  upper : Bool
+  rank : Nat
+  shapeTensor : List Nat
+  shapeBoundary : List Nat
+  /-- value array (dtype, shape, bytes), homogeneous, linked - for the classes that have a value -/
+  value : Option (ArrSpec × Bool × Bool)
+  const : Option ArrSpec
+  flip : Option Bool
+
+def bcObs (b : BCSpec) : BCObs :=
+  { cls := b.cls, grid := gridObs b.grid, axis := b.axis, upper := b.upper, rank := b.rank,
+    shapeTensor := b.shapeTensor, shapeBoundary := b.shapeBoundary,
+    value := if b.cls.hasValue then some (b.value, b.homogeneous, b.valueIsLinked) else none,
+    const := if b.cls.hasConst then some b.const else none,
+    flip := if b.cls = .PeriodicBC then some b.flipSign else none }
+
+theorem bc_obs_of_same (d : Deriv) (hd : d.gridRepr = true) (h2 : d.numRepr = true) {a b : BCSpec}
+    (h : BCSame d a b) : bcObs a = bcObs b := by
+  have hg := grid_obs_of_key_eq d hd h2 _ _ h.grid
+  have hcls := h.cls
+  have hv : (if a.cls.hasValue then some (a.value, a.homogeneous, a.valueIsLinked) else none) =
+      (if b.cls.hasValue then some (b.value, b.homogeneous, b.valueIsLinked) else none) := by
+    by_cases hh : a.cls.hasValue = true
+    · obtain ⟨e1, e2, e3⟩ := h.value hh
+      have hb : b.cls.hasValue = true := hcls ▸ hh
+      simp [hh, hb, e1, e2, e3]
+    · have hb : ¬ b.cls.hasValue = true := hcls ▸ hh
+      simp [hh, hb]
+  have hc : (if a.cls.hasConst then some a.const else none) = (if b.cls.hasConst then some b.const else none) := by
+    by_cases hh : a.cls.hasConst = true
+    · have hb : b.cls.hasConst = true := hcls ▸ hh
+      simp [hh, hb, h.const hh]
+    · have hb : ¬ b.cls.hasConst = true := hcls ▸ hh
+      simp [hh, hb]
+  have hf : (if a.cls = .PeriodicBC then some a.flipSign else none) = (if b.cls = .PeriodicBC then some b.flipSign else none) := by
+    by_cases hh : a.cls = .PeriodicBC
+    · have hb : b.cls = .PeriodicBC := hcls ▸ hh
+      simp [hh, hb, h.flip hh]
+    · have hb : ¬ b.cls = .PeriodicBC := hcls ▸ hh
+      simp [hh, hb]
+  simp only [bcObs, BCObs.mk.injEq]
+  exact ⟨hcls, hg, h.axis, h.upper, h.rank, h.shapeTensor, h.shapeBoundary, hv, hc, hf⟩
+
+structure AxisObs where
+  periodic : Bool
+  low : BCObs
+  high : BCObs
+
+def axisObs (a : AxisSpec) : AxisObs := ⟨a.periodic, bcObs a.low, bcObs a.high⟩
+
+structure BcsObs where
+  grid : GridObs
+  rank : Nat
+  axes : List AxisObs
+
+def bcsObs (b : BcsSpec) : BcsObs := ⟨gridObs b.grid, b.rank, b.axes.map axisObs⟩
+
+theorem map_eq_of_forall₂ {α β : Type} {R : α → α → Prop} {f : α → β} (hR : ∀ x y, R x y → f x = f y) :
+    ∀ {l l' : List α}, List.Forall₂ R l l' → l.map f = l'.map f
+  | _, _, .nil => rfl
+  | _, _, .cons h t => by
+    simp only [List.map_cons, List.cons.injEq]
+    exact ⟨hR _ _ h, map_eq_of_forall₂ hR t⟩
+
+theorem bcs_obs_of_same (d : Deriv) (hd : d.gridRepr = true) (h2 : d.numRepr = true) {a b : BcsSpec}
+    (h : BcsSame d a b) : bcsObs a = bcsObs b := by
+  have hax : a.axes.map axisObs = b.axes.map axisObs := by
+    refine map_eq_of_forall₂ ?_ h.axes
+    intro x y hxy
+    simp only [axisObs, AxisObs.mk.injEq]
+    exact ⟨hxy.periodic, bc_obs_of_same d hd h2 hxy.low, bc_obs_of_same d hd h2 hxy.high⟩
+  simp only [bcsObs, BcsObs.mk.injEq]
+  exact ⟨grid_obs_of_key_eq d hd h2 _ _ h.grid, h.rank, hax⟩
+
+/-- the observable content of a plain argument (a dtype, the value of a keyword argument):
+`None`, a hashable leaf identified by its equality class (type objects, `numpy.dtype`, backend
+objects, functions), a string, or a finite number by its EXACT value (`1`, `1.0`, `True` and
+`np.float64(1)` are the same argument) -/
+inductive ArgObs where
+  | none
+  | atom (tag : String)
+  | str (s : String)
+  | num (v : ℚ)
+
+def argObs : PyObj → Option ArgObs
+  | .none => some .none
+  | .atom t => some (.atom t)
+  | .str s => some (.str s)
+  | .num _ _ (.fin m e) => some (.num (dyadicVal m e))
+  | _ => Option.none
+
+theorem strKey_ne_none (s : String) : strKey s ≠ .leaf (.int pyHashNone) := by
+  unfold strKey rawKey
+  split
+  · split
+    · intro h; injection h with h; injection h with h; revert h; decide
+    · simp
+  · simp
+
+theorem strKey_ne_atom (s t : String) : strKey s ≠ .leaf (.atom t) := by
+  unfold strKey rawKey
+  split
+  · split <;> simp
+  · simp
+
+theorem strKey_ne_tup (s : String) (l : List Key) : strKey s ≠ .tup l := by
+  unfold strKey rawKey
+  split
+  · split <;> simp
+  · simp
+
+/-- **The key of a plain argument determines its observable content** (numbers: for ALL finite
+values, by `fracText_inj`). -/
+theorem arg_obs_of_key_eq (d : Deriv) (h2 : d.numRepr = true) {a b : PyObj} {x y : ArgObs}
+    (ha : argObs a = some x) (hb : argObs b = some y)
+    (h : hashMutableG d a = hashMutableG d b) : x = y := by
+  cases a <;> simp only [argObs, Option.some.injEq, reduceCtorEq] at ha
+  case none =>
+    subst ha
+    cases b <;> simp only [argObs, Option.some.injEq, reduceCtorEq] at hb
+    case none => exact hb
+    case atom t => simp [hashMutableG] at h
+    case str s => simp only [hashMutableG] at h; exact absurd h.symm (strKey_ne_none s)
+    case num c r v =>
+      cases v <;> simp only [argObs, Option.some.injEq, reduceCtorEq] at hb
+      simp [hashMutableG, numKey, h2] at h
+  case atom t =>
+    subst ha
+    cases b <;> simp only [argObs, Option.some.injEq, reduceCtorEq] at hb
+    case none => simp [hashMutableG] at h
+    case atom t' => subst hb; simp only [hashMutableG] at h; injection h with h; injection h with h; rw [h]
+    case str s => simp only [hashMutableG] at h; exact absurd h.symm (strKey_ne_atom s t)
+    case num c r v =>
+      cases v <;> simp only [argObs, Option.some.injEq, reduceCtorEq] at hb
+      simp [hashMutableG, numKey, h2] at h
+  case str s =>
+    subst ha
+    cases b <;> simp only [argObs, Option.some.injEq, reduceCtorEq] at hb
+    case none => simp only [hashMutableG] at h; exact absurd h (strKey_ne_none s)
+    case atom t' => simp only [hashMutableG] at h; exact absurd h (strKey_ne_atom s t')
+    case str s' => subst hb; simp only [hashMutableG] at h; rw [strKey_inj h]
+    case num c r v =>
+      cases v <;> simp only [argObs, Option.some.injEq, reduceCtorEq] at hb
+      simp only [hashMutableG, numKey, h2, if_true] at h
+      exact absurd h (strKey_ne_tup _ _)
+  case num c r v =>
+    cases v <;> simp only [argObs, Option.some.injEq, reduceCtorEq] at ha
+    case fin m e =>
+      subst ha
+      cases b <;> simp only [argObs, Option.some.injEq, reduceCtorEq] at hb
+      case none => simp [hashMutableG, numKey, h2] at h
+      case atom t' => simp [hashMutableG, numKey, h2] at h
+      case str s' =>
+        simp only [hashMutableG, numKey, h2, if_true] at h
+        exact absurd h.symm (strKey_ne_tup _ _)
+      case num c' r' v' =>
+        cases v' <;> simp only [argObs, Option.some.injEq, reduceCtorEq] at hb
+        case fin m' e' =>
+          subst hb
+          simp only [hashMutableG, numKey, h2, if_true, numText] at h
+          have h3 : strKey (fracText m e) = strKey (fracText m' e') := by
+            injection h with h; injection h with _ h; injection h
+          rw [fracText_inj (strKey_inj h3)]
+
+/-- the arguments of a keyword dictionary are of the modelled kinds, no name twice, no name
+that the key derivation drops (`_cache...`) -/
+structure KwModelled (kw : List (String × PyObj)) : Prop where
+  nodup : (kw.map Prod.fst).Nodup
+  args : ∀ p ∈ kw, (argObs p.2).isSome = true
+  names : ∀ p ∈ kw, isCacheAttr p.1 = false
+
+/-- what a keyword dictionary says: name ↦ observable content -/
+def kwObs (kw : List (String × PyObj)) : String → Option ArgObs := fun n => (kw.lookup n).bind argObs
+
+theorem mem_of_lookup {β : Type} {l : List (String × β)} {n : String} {v : β} (h : l.lookup n = some v) : (n, v) ∈ l := by
+  induction l with
+  | nil => simp at h
+  | cons p l ih =>
+    obtain ⟨a, b⟩ := p
+    simp only [List.lookup_cons] at h
+    split at h
+    · next heq =>
+      have : n = a := by simpa using heq
+      simp at h
+      simp [this, h]
+    · exact List.mem_cons_of_mem _ (ih h)
+
+theorem lookup_none_of_cache {β : Type} {l : List (String × β)} (hn : ∀ p ∈ l, isCacheAttr p.1 = false) {n : String}
+    (h : isCacheAttr n = true) : l.lookup n = none := by
+  cases hl : l.lookup n with
+  | none => rfl
+  | some v => have := hn _ (mem_of_lookup hl); simp [h] at this
+
+theorem bind_obs_eq (d : Deriv) (h2 : d.numRepr = true) {A B : List (String × PyObj)}
+    (hA : ∀ p ∈ A, (argObs p.2).isSome = true) (hB : ∀ p ∈ B, (argObs p.2).isSome = true) (n : String)
+    (h : (A.lookup n).map (hashMutableG d) = (B.lookup n).map (hashMutableG d)) :
+    (A.lookup n).bind argObs = (B.lookup n).bind argObs := by
+  cases ha : A.lookup n with
+  | none =>
+    cases hb : B.lookup n with
+    | none => rfl
+    | some y => simp [ha, hb] at h
+  | some x =>
+    cases hb : B.lookup n with
+    | none => simp [ha, hb] at h
+    | some y =>
+      have hx := hA _ (mem_of_lookup ha)
+      have hy := hB _ (mem_of_lookup hb)
+      obtain ⟨ox, hox⟩ := Option.isSome_iff_exists.mp hx
+      obtain ⟨oy, hoy⟩ := Option.isSome_iff_exists.mp hy
+      simp only [ha, hb, Option.map_some, Option.some.injEq] at h
+      simp only [Option.bind_some]
+      simp only at hox hoy
+      rw [hox, hoy, arg_obs_of_key_eq d h2 hox hoy h]
+
+/-- **Keyword keys** (the cached `make_interpolator(**kwargs)`, `fill=-1` vs `fill=-2`, `0.5` vs
+`2**60`, any finite numbers): equal wrapper keys imply that every name carries the same
+observable content. -/
+theorem kwargs_obs_of_key_eq (d : Deriv) (h2 : d.numRepr = true) {kw kw' : List (String × PyObj)}
+    (hk : KwModelled kw) (hk' : KwModelled kw')
+    (h : cacheKeyG d [] [] [] kw = cacheKeyG d [] [] [] kw') : kwObs kw = kwObs kw' := by
+  simp only [cacheKeyG, hashMutableG, hashListG, List.cons_append, List.nil_append, List.append_nil] at h
+  injection h with h
+  injection h with _ h
+  injection h with hkw _
+  have hfa : ∀ l : List (String × PyObj), l.filter (fun kv => !([] : List String).contains kv.1) = l := by
+    intro l; simp
+  rw [hfa, hfa] at hkw
+  funext n
+  by_cases hn : isCacheAttr n = true
+  · simp [kwObs, lookup_none_of_cache hk.names hn, lookup_none_of_cache hk'.names hn]
+  · have hn' : isCacheAttr n = false := by simpa using hn
+    have := dictKey_lookup hkw (hashAttrsG_names_nodup d _ hk.nodup) n
+    have hm : (kw.lookup n).map (hashMutableG d) = (kw'.lookup n).map (hashMutableG d) := by
+      simpa [lookup_hashAttrsG, hn'] using this
+    exact bind_obs_eq d h2 hk.args hk'.args n hm
+
+/-- the observable content of a request to the cached `make_operator` -/
+structure OpObs where
+  grid : GridObs
+  op : OpSpec
+  bcs : BcsObs
+  dtype : Option ArgObs
+  kwargs : String → Option ArgObs
+
+def opObs (r : OpReq) : OpObs := ⟨gridObs r.grid, r.op, bcsObs r.bcs, argObs r.dtype, kwObs r.kwargs⟩
+
+/-- requests whose arguments are of the modelled kinds -/
+structure OpReq.Modelled (r : OpReq) : Prop where
+  small : ∀ x ∈ r.bcs.axes, x.Small
+  dtype : (argObs r.dtype).isSome = true
+  kwargs : KwModelled r.kwargs
+  reserved : ∀ p ∈ r.kwargs, p.1 ≠ "bcs" ∧ p.1 ≠ "dtype"
+
+theorem lookup_none_of_not_name {β : Type} {l : List (String × β)} {n : String} (h : ∀ p ∈ l, p.1 ≠ n) : l.lookup n = none := by
+  cases hl : l.lookup n with
+  | none => rfl
+  | some v => exact absurd rfl (h _ (mem_of_lookup hl))
+
+/-- **The key of the cached `make_operator` determines the observable content of the request.** -/
+theorem opreq_obs_of_key_eq (d : Deriv) (h1 : d.withClass = true) (h2 : d.numRepr = true)
+    (h3 : d.arrMeta = true) (h4 : d.gridRepr = true) (a b : OpReq) (ha : a.Modelled) (hb : b.Modelled)
+    (h : opReqKeyG d a = opReqKeyG d b) : opObs a = opObs b := by
+  have hna : ((opReqKwargs a).map Prod.fst).Nodup := by
+    simp only [opReqKwargs, List.cons_append, List.nil_append, List.map_cons, List.nodup_cons, List.mem_cons,
+      List.mem_map, not_or]
+    refine ⟨⟨by decide, ?_⟩, ?_, ha.kwargs.nodup⟩
+    · rintro ⟨p, hp, hpe⟩; exact (ha.reserved p hp).1 hpe
+    · rintro ⟨p, hp, hpe⟩; exact (ha.reserved p hp).2 hpe
+  have hs := opreq_key_faithful d h1 h2 h3 a b ha.small hb.small hna h
+  obtain ⟨oa, hoa⟩ := Option.isSome_iff_exists.mp ha.dtype
+  obtain ⟨ob, hob⟩ := Option.isSome_iff_exists.mp hb.dtype
+  have hdt : argObs a.dtype = argObs b.dtype := by
+    rw [hoa, hob, arg_obs_of_key_eq d h2 hoa hob hs.dtype]
+  have hkw : kwObs a.kwargs = kwObs b.kwargs := by
+    funext n
+    by_cases hn : isCacheAttr n = true
+    · simp [kwObs, lookup_none_of_cache ha.kwargs.names hn, lookup_none_of_cache hb.kwargs.names hn]
+    · have hn' : isCacheAttr n = false := by simpa using hn
+      by_cases hnb : n = "bcs"
+      · subst hnb
+        simp [kwObs, lookup_none_of_not_name (fun p hp => (ha.reserved p hp).1),
+          lookup_none_of_not_name (fun p hp => (hb.reserved p hp).1)]
+      · by_cases hnd : n = "dtype"
+        · subst hnd
+          simp [kwObs, lookup_none_of_not_name (fun p hp => (ha.reserved p hp).2),
+            lookup_none_of_not_name (fun p hp => (hb.reserved p hp).2)]
+        · exact bind_obs_eq d h2 ha.kwargs.args hb.kwargs.args n (hs.kwargs n hn' hnb hnd)
+  simp only [opObs, OpObs.mk.injEq]
+  exact ⟨grid_obs_of_key_eq d h4 h2 _ _ hs.grid, hs.op, bcs_obs_of_same d h4 h2 hs.bcs, hdt, hkw⟩
+
+/-! ## composition: the cached methods of py-pde, every history
+
+Whatever `make_operator` builds for a request - as long as it is a function `build` of the
+observable content of the request - every history of modelled requests on the cache keyed by the
+CURRENT key derivation returns exactly what a fresh construction returns: for every order, every
+length, every capacity.  (That the real operators are functions of the observables, and that the
+modelled graphs are the graphs of the real arguments, is what the harness checks on the real
+code: `sem_eq` / `cached_ok` monitors and the `spec-graph` tie.) -/
+
+theorem make_operator_cache_sound {V : Type} (build : OpObs → V) (cap : Option Nat) (rs : List OpReq)
+    (hrs : ∀ r ∈ rs, r.Modelled) :
+    runAll cap opReqKey (fun r => build (opObs r)) [] rs = rs.map (fun r => build (opObs r)) :=
+  cache_sound_of_faithful_on OpReq.Modelled cap opReqKey _
+    (fun a b ha hb h => by
+      show build (opObs a) = build (opObs b)
+      rw [opreq_obs_of_key_eq Deriv.cur rfl rfl rfl rfl a b ha hb h])
+    rs [] (CInvOn_nil _ _ _) hrs
+
+/-- the same on the per-instance `_cache_methods` machine (the backend singleton), with
+invalidations and other cached methods of the instance interleaved -/
+theorem make_operator_events_sound {V : Type} (build : String → OpObs → V) (cap : Option Nat)
+    (es : List (Ev OpReq)) (hes : EvsOn (fun _ r => r.Modelled) es) :
+    runEvents cap (fun _ => opReqKey) (fun n r => build n (opObs r)) none es
+      = freshEvents (fun n r => build n (opObs r)) es :=
+  events_sound_of_faithful_on (fun _ r => r.Modelled) cap _ _
+    (fun n a b ha hb h => by
+      show build n (opObs a) = build n (opObs b)
+      rw [opreq_obs_of_key_eq Deriv.cur rfl rfl rfl rfl a b ha hb h])
+    es none (fun n => CInvOn_nil _ _ _) hes
+
+/-- `DataFieldBase.make_interpolator(**kwargs)` (and every other cached method keyed by plain
+keyword arguments only): every history of modelled keyword dictionaries -/
+theorem kwargs_method_cache_sound {V : Type} (build : (String → Option ArgObs) → V) (cap : Option Nat)
+    (rs : List (List (String × PyObj))) (hrs : ∀ kw ∈ rs, KwModelled kw) :
+    runAll cap (cacheKey [] [] []) (fun kw => build (kwObs kw)) [] rs = rs.map (fun kw => build (kwObs kw)) :=
+  cache_sound_of_faithful_on KwModelled cap (cacheKey [] [] []) _
+    (fun a b ha hb h => by
+      show build (kwObs a) = build (kwObs b)
+      rw [kwargs_obs_of_key_eq Deriv.cur rfl ha hb h])
+    rs [] (CInvOn_nil _ _ _) hrs
+
+/-- the regression in the same terms: before F1 the composed statement is FALSE for the history
+`[value 0, derivative 0]` whenever the two operators differ -/
+theorem make_operator_cache_unsound_old {V : Type} (build : OpObs → V)
+    (hs : build (opObs (laplaceReq dirichlet0)) ≠ build (opObs (laplaceReq neumann0))) :
+    runAll none (opReqKeyG .beforeF1) (fun r => build (opObs r)) [] [laplaceReq dirichlet0, laplaceReq neumann0]
+      ≠ [laplaceReq dirichlet0, laplaceReq neumann0].map (fun r => build (opObs r)) :=
+  (cache_unsound_of_collision none (by simp) _ (fun r => build (opObs r)) _ _ opreq_key_collision_old.1 hs).2
+
+/-! ### non-vacuity of the composition -/
+
+/-- the hypotheses are satisfiable: the two requests of the F1 regression are modelled ... -/
+theorem laplaceReq_modelled (b : BCSpec) (hb : b.value.Small ∧ b.const.Small) : (laplaceReq b).Modelled := by
+  refine ⟨?_, rfl, ⟨by simp [laplaceReq], by simp [laplaceReq], by simp [laplaceReq]⟩, by simp [laplaceReq]⟩
+  intro x hx
+  simp only [laplaceReq, bcsOf, List.mem_singleton] at hx
+  subst hx
+  exact ⟨hb, hb⟩
+
+example : (laplaceReq dirichlet0).Modelled ∧ (laplaceReq neumann0).Modelled := by
+  constructor <;> apply laplaceReq_modelled <;> constructor <;> intro n hn <;> simp [dirichlet0, neumann0] at hn
+
+/-- ... their observable contents differ (so `build` may tell them apart) ... -/
+example : (opObs (laplaceReq dirichlet0)).bcs.axes.map (fun a => a.low.cls) ≠
+    (opObs (laplaceReq neumann0)).bcs.axes.map (fun a => a.low.cls) := by
+  decide
+
+/-- ... and a keyword dictionary with a negative and a fractional number is modelled -/
+example : KwModelled [("fill", .num "int" "-1" (.fin (-1) 0)), ("with_ghost_cells", boolObj true), ("backend", .str "numba")] := by
+  refine ⟨by decide, ?_, ?_⟩ <;> intro p hp <;> simp at hp <;> rcases hp with rfl | rfl | rfl <;> first | rfl | decide
+
+/-- `fill=-1` and `fill=-2`, `0.5` and `2**60` are told apart by the key (as values, not by a finite table) -/
+example : kwObs [("fill", .num "int" "-1" (.fin (-1) 0))] "fill" ≠ kwObs [("fill", .num "int" "-2" (.fin (-2) 0))] "fill" := by
+  simp [kwObs, argObs, dyadicVal]
 
 
 end PdeVerif.Cache
